@@ -171,44 +171,8 @@ c.on_exit = ent_on_exit
 con.cases.append(c)
 
 
-# ---- 4. library clauses: no hash-seed dependent order ----------------------------------------------------------------
-def lib_shape(paths):
-    def make(env):
-        subs = []
-        for p in paths:
-            ent = SObj(VR.Entity, __path__=p)
-            subs.append(SObj(VR.EntityInst, _entity=ent))
-        return SObj(VR.Entity, _sub_entities=subs)
-
-    return Built([], make, lambda a: "None", lambda a: None)
-
-
-I.register_model(VR.Entity.__dict__["path"], lambda it, self: self.fields["__path__"])
-C.inline("cohdl.utility.code_writer:TextBlock.__init__")
-C.inline("cohdl.utility.code_writer:TextBlock.add")
-
-
-def lib_on_exit(it, ctx, real, rep):
-    bad = [e for e in ctx.events if e[0] == "iter-set-of-str"]
-    ctx.prove(rep.oid("no-set-of-str-iteration"), not bad, events=str(bad)[:120])
-
-
-def lib_spec(paths):
-    def spec(sx, self):
-        want = []
-        for p in paths:
-            if p is not None and p != "work":
-                line = f"library {p.split('.')[0].lower()};"
-                if line not in want:
-                    want.append(line)
-
-        def holds(res):
-            content = res.fields["_content"] if isinstance(res, SObj) else None
-            return content == ["library ieee;", "use ieee.std_logic_1164.all;", "use ieee.numeric_std.all;"] + want
-
-        return C.Pred(holds, "library clauses in order of first use")
-
-    return spec
+# ---- 4. library clauses: see contracts/c06_library.py (shared with C06)
+from contracts import c06_library as _LIB  # noqa: E402,F401
 
 
 # ---- 5. emission order of sub-entities: instantiation order, never address order ------------------------------------------
@@ -323,9 +287,72 @@ for fname, kind in (("convert_sequential", ContextType.SEQUENTIAL), ("convert_co
     c.setup = _setup6
     con.cases.append(c)
 
-con = contract("cohdl._compiler.backend.vhdl._vhdl_repr:Entity._library_declaration", PROPS)
-for paths in ([], ["work"], ["liba"], ["liba", "libb"], ["libb", "liba", "libb"], ["LibC.sub", "liba", None, "libb"]):
-    c = Case("paths-" + ("-".join(str(p) for p in paths) or "none"), [lib_shape(paths)], lib_spec(paths))
+# ---- 7. ConvertPythonInstance.__exit__: nothing of the finished compilation is kept for the next one ------------------------------
+# FunctionDefinition._known_definitions maps id(function) to the parsed definition TOGETHER with the values the global
+# and nonlocal names used by the function had when it was parsed.  The key does not determine those values, so the entries
+# of one compilation must not reach the next one ("this is done so future compilations do not contain cached results from
+# the current run", comment in __exit__): on exit every instantiation info is discarded and no cached definition is left.
+from cohdl._core import _collect_ast_and_scope as CAS7  # noqa: E402
+import inspect as _inspect  # noqa: E402
+
+
+class _Info7:
+    def _discard_instantiation(self):
+        return None
+
+
+class _Coro7:
+    def close(self):
+        return None
+
+
+def _discard7(it, self):
+    it.discarded.append(self)
+    return None
+
+
+I.register_model(_Info7._discard_instantiation, _discard7)
+I.register_model(_Coro7.close, lambda it, self: None)
+I.register_model(CTX._set_entity_instantiation_handler, lambda it, h: it.handlers.__setitem__("inst", h))
+I.register_model(CTX._on_register_inline_entity, lambda it, h: it.handlers.__setitem__("inline", h))
+if hasattr(CAS7.FunctionDefinition, "_discard_known_definitions"):
+    I.register_inline(CAS7.FunctionDefinition.__dict__["_discard_known_definitions"].__func__)
+
+
+def exit_spec(n_infos, n_defs):
+    def spec(sx, self, *exc):
+        it = sx.it
+
+        def holds(res):
+            known = overlay_get(it.ctx, CAS7.FunctionDefinition, "_known_definitions", it.known)
+            if __import__("os").environ.get("PYVC_DEBUG7"):
+                print("DEBUG7", known, it.known, it.discarded, it.infos, it.handlers)
+            return len(known) == 0 and [id(x) for x in it.discarded] == [id(x) for x in it.infos] and it.handlers == {"inst": None, "inline": None}
+
+        return C.Pred(holds, "every instantiation info discarded, both handlers removed, no cached function definition left")
+
+    return spec
+
+
+def _exit_setup(n_infos, n_defs):
+    def setup(it, ctx, args, env):
+        it.infos = args[0].fields["_entity_infos"]
+        it.discarded = []
+        it.handlers = {"inst": "<handler>", "inline": "<handler>"}
+        it.known = {1000 + i: (Opaque(f"definition{i}"), SObj(_Coro7) if i % 2 else Opaque(f"function{i}")) for i in range(n_defs)}
+        ctx.attr_overlay[(id(CAS7.FunctionDefinition), "_known_definitions")] = (CAS7.FunctionDefinition, it.known)
+        ctx.global_overlay[(PA.__name__, "_active_converter_instance")] = args[0]
+
+    return setup
+
+
+con = contract("cohdl._compiler.frontend._prepare_ast:ConvertPythonInstance.__exit__", PROPS)
+for n_infos, n_defs in ((0, 0), (1, 1), (2, 3), (0, 2)):
+    c = Case(f"{n_infos}-instantiated-entities,{n_defs}-cached-definitions",
+             [Built([], (lambda n: lambda env: SObj(PA.ConvertPythonInstance, _entity_infos=[SObj(_Info7) for _ in range(n)]))(n_infos), lambda a: "<converter>", lambda a: None),
+              Built([], lambda env: None, lambda a: "None", lambda a: None), Built([], lambda env: None, lambda a: "None", lambda a: None), Built([], lambda env: None, lambda a: "None", lambda a: None)],
+             exit_spec(n_infos, n_defs))
     c.native = False
-    c.on_exit = lib_on_exit
+    c.models = [(_inspect.iscoroutine, lambda it, x: isinstance(x, SObj) and x.kind is _Coro7)]
+    c.setup = _exit_setup(n_infos, n_defs)
     con.cases.append(c)
